@@ -43,6 +43,7 @@ func ruleC19(w *World, r *Report) {
 		"R19.2 the datapath-programming call is reachable only through the PUT/POST arms and only on paths where io.ReadAll's and json.Unmarshal's errors were established nil; " +
 		"R19.3 calculateBitRates' unit→factor decision table (bps 1, Kbps 1e3, Gbps 1e9, Mbps/other 1e6) by constant-factor extraction per path, and field provenance from the posted document through SliceInfo into the BESS slice-meter arguments and the UP4 MeterConfig / slice-TC index."
 	r.Explanation += " R19.6 P4rtcInfo.DefaultTC is written only before the file is decoded (0 is a legal class; a fill-in-when-zero afterwards changes the configured cell)."
+	r.Explanation += " R19.7 Pir/Pburst of the UP4 slice meter are the converted values, the only constant allowed is MaxInt64; R19.1 resolves a status variable along each path."
 	r.NotDecided = "arithmetic at the 63-bit edge; what BESS/UP4 do with the meter values"
 	r.Assumptions = []string{"net/http calls ServeHTTP once per request", "encoding/json fills NetworkSlice per its struct tags (library behaviour)"}
 	const P = "C19"
